@@ -5,6 +5,7 @@ import (
 	"fmt"
 	"io/ioutil"
 	"log"
+	"math/rand"
 	"sort"
 	"strconv"
 	"strings"
@@ -467,24 +468,35 @@ func runC16(r *Rand, tier string, o *Out) {
 			var line string
 			switch {
 			case k < 18:
-				// Add: the implementation draws the id
-				impl := &lifeImpl{uid: len(life.insts)}
-				id, err := life.service.Add(pong.PingPongObject(impl))
-				if err != nil {
-					o.Op("P", "svc.add 0", "err", true)
-					continue
+				// Add: the implementation draws the id — often, and then several times in a row, from a source put back
+				// to one state, so that it draws identifiers it has handed out already (a collision is one in 2^31 otherwise)
+				burst, reset := 1, r.Chance(60)
+				if reset && r.Chance(50) {
+					burst = 2 + r.Intn(3)
 				}
-				if containsU32(live, id) {
-					o.Fail("Add handed out an identifier that a live object holds",
-						strings.Join(seq, " ")+fmt.Sprintf(" add=>%d", id))
+				for bi := 0; bi < burst; bi++ {
+					impl := &lifeImpl{uid: len(life.insts)}
+					if reset {
+						rand.Seed(int64(r.Intn(2)))
+						o.Count("op:add-identifier-source-reset")
+					}
+					id, err := life.service.Add(pong.PingPongObject(impl))
+					if err != nil {
+						o.Op("P", "svc.add 0", "err", true)
+						continue
+					}
+					if containsU32(live, id) {
+						o.Fail("Add handed out an identifier that a live object holds",
+							strings.Join(seq, " ")+fmt.Sprintf(" add=>%d", id))
+					}
+					life.insts = append(life.insts, impl)
+					life.byID[id] = impl
+					live = append(live, id)
+					removed = removeU32(removed, id) // the identifier is bound again
+					o.Op("P", fmt.Sprintf("svc.add %d", id), "added", true)
+					o.Count("op:add")
+					seq = append(seq, fmt.Sprintf("add(%d)", id))
 				}
-				life.insts = append(life.insts, impl)
-				life.byID[id] = impl
-				live = append(live, id)
-				removed = removeU32(removed, id) // the identifier is bound again
-				o.Op("P", fmt.Sprintf("svc.add %d", id), "added", true)
-				o.Count("op:add")
-				seq = append(seq, fmt.Sprintf("add(%d)", id))
 				continue
 			case k < 30 && len(live) > 0:
 				id := pick(live)
